@@ -10,7 +10,8 @@
     evaluates on the implementation's behaviour. *)
 From Coq Require Import String.
 From Verif Require Import Lib.Base Lib.Dec Lib.PyStr Gen.PyChars
-  Deb822.Relation Deb822.RelationSpec Deb822.RelationProofs.
+  Deb822.Relation Deb822.RelationSpec Deb822.RelationProofs
+  Deb822.RelationCheck Deb822.RelationCheckProofs.
 
 (** 1. parse_str_inverse.  For every relationship structure of the domain — any
        number of conjuncts, any number of alternatives, every combination of the
@@ -58,6 +59,30 @@ Theorem C13_str_injective :
   forall r1 r2, wf_rels r1 = true -> wf_rels r2 = true -> rel_str r1 = rel_str r2 -> r1 = r2.
 Proof. exact str_injective. Qed.
 
+(** 6. The bridge to the correspondence check (Deb822/RelationCheck.v): for every case
+       of every constructor — every structure in or outside the domain, every observed
+       string / parse / exception — an observation that agrees with the model ([agree])
+       passes the property's judgement ([holds]).
+       [holds] of a [CRel] case also consults [via_pkg] (the Packages / Sources accessors
+       gave the same structure and warnings), an observation [agree] does not compare and
+       the model does not describe; the side condition [judged] = "[via_pkg] is true, or
+       the structure is outside [wf_rels]" (always true on the other constructors) is
+       exactly what is needed: an agreeing case outside [judged] fails [holds]
+       ([C13_judged_is_needed]).  Whatever [via_pkg] says, agreement forces the
+       format -> parse -> format judgement itself ([C13_agree_implies_roundtrip]). *)
+Theorem C13_agree_implies_holds :
+  forall c, judged c = true -> agree c = true -> holds c = true.
+Proof. exact agree_implies_holds. Qed.
+
+Theorem C13_agree_implies_roundtrip :
+  forall rels s1 parsed s2 via_pkg,
+    agree (CRel rels s1 parsed s2 via_pkg) = true -> holds (CRel rels s1 parsed s2 true) = true.
+Proof. exact agree_implies_roundtrip. Qed.
+
+Theorem C13_judged_is_needed :
+  forall c, agree c = true -> judged c = false -> holds c = false.
+Proof. exact judged_is_needed. Qed.
+
 (** Non-vacuity: a structure with three conjuncts, alternatives, every optional
     part, a negated architecture, two restriction groups with a negated profile and
     odd-but-valid names is in the domain; so are the five relational operators; and
@@ -96,9 +121,24 @@ Example C13_domain_is_tight :
   /\ parse_relations (rel_str []) = Ok ([[mkRel [] None None None None]], 1%N).
 Proof. vm_compute. repeat split. Qed.
 
+(** the hypotheses of 6 are met by a case inside the domain (so [holds] judges the round
+    trip), and the unconditional statement does fail when only [via_pkg] is negative *)
+Example C13_bridge_nonvacuous :
+  let a := mkC "libc6" (Some "any") (Some (">=", "2.36")) (Some [(false, "hurd-i386")]) (Some [[(true, "stage1")]]) in
+  let b := mkC "g++" None None None None in
+  let txt := "libc6:any (>= 2.36) [!hurd-i386] <stage1> | g++, g++" in
+  let c v := CRel [[a; b]; [b]] txt (Ok ([[a; b]; [b]], 0%N)) (Some txt) v in
+  wf_rels (dec_rels [[a; b]; [b]]) = true
+  /\ judged (c true) = true /\ agree (c true) = true /\ holds (c true) = true
+  /\ judged (c false) = false /\ agree (c false) = true /\ holds (c false) = false.
+Proof. vm_compute. repeat split. Qed.
+
 Print Assumptions C13_parse_str_inverse.
 Print Assumptions C13_str_parse_str.
 Print Assumptions C13_roundtrip_judgement.
 Print Assumptions C13_leaf_recognises_formatted_atom.
 Print Assumptions C13_atom_inverse.
 Print Assumptions C13_str_injective.
+Print Assumptions C13_agree_implies_holds.
+Print Assumptions C13_agree_implies_roundtrip.
+Print Assumptions C13_judged_is_needed.
